@@ -574,7 +574,7 @@ def run_noise_cell(torch, gpytorch, c):
     x = torch.rand(n, 2, generator=g, dtype=D)
     fixedvec = torch.tensor([1e-12, 0.02, 0.3, 1.0] if rawc == "edge" else [0.05, 0.02, 0.3, 1.0], dtype=D)
 
-    def build(raw):
+    def build(raw, idx=None):
         torch.manual_seed(c["seed"])
         kw = {} if bc == "default" else dict(noise_constraint=constraint())
         if fam == "gaussian":
@@ -588,18 +588,24 @@ def run_noise_cell(torch, gpytorch, c):
         if fam == "hetero":
             from gpytorch.likelihoods.gaussian_likelihood import _GaussianLikelihoodBase
             from gpytorch.likelihoods.noise_models import HeteroskedasticNoise
-            nl = L.GaussianLikelihood().to(D)
+            nl = (L.GaussianLikelihood() if idx is None else L.MultitaskGaussianLikelihood(num_tasks=2)).to(D)
+            rawcol = raw * (1 + 0.1 * torch.arange(n, dtype=D)) if raw < 0 else raw + 0.1 * torch.arange(n, dtype=D)
+            bs = torch.Size([]) if idx is None else torch.Size([2])
 
             class NM(gpytorch.models.ExactGP):       # a noise model whose prediction is the raw value (times 1, 1.1, ...)
                 def __init__(s_):
-                    super().__init__(x, raw * (1 + 0.1 * torch.arange(n, dtype=D)) if raw < 0 else raw + 0.1 * torch.arange(n, dtype=D), nl)
-                    s_.mean_module = gpytorch.means.ZeroMean()
-                    s_.covar_module = gpytorch.kernels.RBFKernel()
+                    # (noise_indices=idx: a two-output noise model; output idx is the raw noise level, the other one an auxiliary positive quantity)
+                    super().__init__(x, rawcol if idx is None else torch.stack([rawcol if k == idx else torch.full_like(rawcol, 5.0) for k in range(2)], -1), nl)
+                    s_.mean_module = gpytorch.means.ZeroMean(batch_shape=bs)
+                    s_.covar_module = gpytorch.kernels.RBFKernel(batch_shape=bs)
 
                 def forward(s_, xx):
-                    return MultivariateNormal(s_.mean_module(xx), s_.covar_module(xx))
+                    d_ = MultivariateNormal(s_.mean_module(xx), s_.covar_module(xx))
+                    return d_ if idx is None else MultitaskMultivariateNormal.from_batch_mvn(d_)
             nm = NM().to(D)
             nm.covar_module.lengthscale = 1e-3       # interpolates its targets at the training inputs
+            if idx is not None:
+                kw = dict(kw, noise_indices=idx)
             return _GaussianLikelihoodBase(noise_covar=HeteroskedasticNoise(nm, **kw))
         if mt:
             return L.MultitaskGaussianLikelihood(num_tasks=T, rank=sh["rank"], has_global_noise=sh["glob"], has_task_noise=sh["task"], **kw)
@@ -614,12 +620,15 @@ def run_noise_cell(torch, gpytorch, c):
     A = torch.randn(n * (T if mt else 1), n * (T if mt else 1) + 2, generator=g, dtype=D)
     Kf = A @ A.T / A.shape[1] + 0.5 * torch.eye(A.shape[0], dtype=D)
     for raw in RAW_VALUES[rawc]:
-        for il in ((True, False) if mt else (None,)):
+        # (hetero: the optional noise_indices argument is a dimension of the replay - None = single-output noise model, k = output k of a
+        #  two-output noise model is the noise level)
+        for il in ((True, False) if mt else (None, "idx0", "idx1") if fam == "hetero" else (None,)):
             for training in (False, True):
-                extra = "%s%s" % ("train" if training else "eval", "" if il is None else " interleaved=%s" % il)
+                idx = int(il[3:]) if isinstance(il, str) else None
+                extra = "%s%s" % ("train" if training else "eval", "" if il is None else " noise_indices=%d" % idx if idx is not None else " interleaved=%s" % il)
 
                 def evaluate():
-                    lik = build(raw).to(D)
+                    lik = build(raw, idx).to(D)
                     with torch.no_grad():
                         for pn, p_ in lik.named_parameters():
                             if pn.split(".")[-1] in ("raw_noise", "raw_task_noises") and "noise_model" not in pn:
